@@ -2,7 +2,7 @@
    dispatcher, and soundness / completeness of the extracted checker check_C04. *)
 From Coq Require Import List Arith Bool Lia.
 From LMBase Require Import Res ListX.
-From LMStripe Require Import StripeModel NetModel GenStripeNet StripeAvx2 StripeSpec StripeProofs NetProofs Avx2Proofs.
+From LMStripe Require Import StripeModel NetModel GenStripeNet StripeAvx2 StripeSpec StripeProofs SpecProofs NetProofs Avx2Proofs.
 Import ListNotations.
 
 Section Hist.
@@ -142,6 +142,20 @@ Proof.
   apply stripe_avx2_eq_generic_lemma. assumption.
 Qed.
 
+(* the striped form determines the sequence *)
+Lemma Striped_lossless K C (s s' : list nat) (st : sseq) :
+  0 < C -> Striped K C s st -> Striped K C s' st -> s = s'.
+Proof.
+  intros HC H1 H2.
+  pose proof H1 as (_ & _ & Hl1 & _). pose proof H2 as (_ & _ & Hl2 & _).
+  apply (nth_ext_len _ _ (wild K)); [congruence|].
+  intros i Hi.
+  destruct (s_index_spec K C s st i HC H1) as [A _].
+  destruct (s_index_spec K C s' st i HC H2) as [B _].
+  pose proof (seq_rows_ge C (length s) HC). pose proof (seq_rows_ge C (length s') HC).
+  rewrite A in B by lia. specialize (B ltac:(lia)). congruence.
+Qed.
+
 (* ---------- the checker ---------- *)
 
 Definition Holds_C04 (K C : nat) (s : list nat) (ob : obs) : Prop :=
@@ -149,6 +163,7 @@ Definition Holds_C04 (K C : nat) (s : list nat) (ob : obs) : Prop :=
   (forall k, k < swrap (o_st ob) ->
      nth (seq_rows C (length s) + k) (mat (o_st ob)) [] = shift_row K (nth k (mat (o_st ob)) [])) /\
   (forall i r, In (i, r) (o_index ob) -> i < length s -> r = Ok (nth i s (wild K))) /\
+  o_all ob = Ok s /\
   o_counts ob = Ok (lin_counts K s) /\
   o_count1 ob = Ok (lin_counts K s) /\
   o_agree ob = true.
@@ -167,15 +182,17 @@ Proof.
   intros HC H. unfold check_C04 in H.
   apply andb_true_iff in H. destruct H as [H H6].
   apply andb_true_iff in H. destruct H as [H H5].
+  apply andb_true_iff in H. destruct H as [H H7].
   apply andb_true_iff in H. destruct H as [H H4].
-  apply andb_true_iff in H. destruct H as [H H3].
-  apply andb_true_iff in H. destruct H as [H1 H2].
-  apply check_striped_sound_lemma in H1.
+  apply andb_true_iff in H. destruct H as [H1 H3].
+  (* H1 striped (fast check), H3 sampled Index, H4 all Index, H7 counts, H5 count1, H6 agree *)
+  apply (check_fast_sound K C s _ HC) in H1.
   unfold Holds_C04. split; [assumption|]. split.
   { intros k Hk. apply (wrap_row_shift_lemma K C s _ k HC H1 Hk). }
   split.
   { intros i r Hin Hi. rewrite forallb_forall in H3. specialize (H3 _ Hin). cbn [fst snd] in H3.
     destruct (Nat.ltb_spec i (length s)); [|lia]. apply is_ok_nat_true. assumption. }
+  split; [apply is_ok_list_true; assumption|].
   split; [apply is_ok_list_true; assumption|].
   split; [apply is_ok_list_true; assumption|assumption].
 Qed.
@@ -193,20 +210,22 @@ Qed.
 Lemma model_passes_C04_lemma K C s st idx : 0 < C -> Forall (fun y => y < K) s ->
   Striped K C s st -> check_C04 K C s (observe K C st idx) = true.
 Proof.
-  intros HC Hsym HS. unfold check_C04, observe. cbn [o_st o_index o_counts o_count1 o_agree].
-  rewrite (check_striped_complete_lemma K C s st HS).
+  intros HC Hsym HS. unfold check_C04, observe. cbn [o_st o_index o_all o_counts o_count1 o_agree].
+  assert (EA : index_all K C st = Ok s).
+  { unfold index_all. pose proof HS as (_ & _ & Hsl & _). rewrite Hsl.
+    rewrite (res_all_ok (fun i => nth i s (wild K))).
+    - f_equal. apply map_nth_seq_id. reflexivity.
+    - intros i Hi. apply in_seq in Hi. apply (s_index_spec K C s st i HC HS).
+      pose proof (seq_rows_ge C (length s) HC). lia. }
+  rewrite EA.
+  rewrite (check_fast_complete K C s st HC HS).
   rewrite (count_symbols_lemma K C HC s st HS Hsym).
   assert (E : count_each K C st = Ok (lin_counts K s)).
   { unfold count_each, lin_counts. apply res_all_ok. intros x _. apply count_symbol_lemma; assumption. }
-  rewrite E. cbn [is_ok_list]. rewrite list_eqb_refl. cbn [andb]. rewrite !andb_true_r.
-  apply andb_true_iff. split.
-  - unfold check_wrap_rows. apply forallb_forall. intros k Hk. apply in_seq in Hk.
-    apply list_eqb_eq. pose proof HS as (_ & Hlen & _ & _).
-    replace (length (mat st) - swrap st) with (seq_rows C (length s)) by lia.
-    apply (wrap_row_shift_lemma K C s st k HC HS). lia.
-  - apply forallb_forall. intros p Hp. apply in_map_iff in Hp. destruct Hp as (i & <- & _). cbn [fst snd].
-    destruct (Nat.ltb_spec i (length s)) as [Hi|]; [|reflexivity].
-    destruct (s_index_spec K C s st i HC HS) as [Hok _]. rewrite Hok.
-    + cbn [is_ok_nat]. apply Nat.eqb_refl.
-    + pose proof (seq_rows_ge C (length s) HC). lia.
+  rewrite E. cbn [is_ok_list]. rewrite !list_eqb_refl. cbn [andb]. rewrite !andb_true_r.
+  apply forallb_forall. intros p Hp. apply in_map_iff in Hp. destruct Hp as (i & <- & _). cbn [fst snd].
+  destruct (Nat.ltb_spec i (length s)) as [Hi|]; [|reflexivity].
+  destruct (s_index_spec K C s st i HC HS) as [Hok _]. rewrite Hok.
+  - cbn [is_ok_nat]. apply Nat.eqb_refl.
+  - pose proof (seq_rows_ge C (length s) HC). lia.
 Qed.
